@@ -406,3 +406,56 @@ def check_writes(ctx, rid, prop):
     r.stat('entries', len(tab))
     r.floor(found, max(1, int(len(tab) * 0.8)), 'reviewed writers found in the tree')
     return r
+
+
+# ------------------------------------------------------------------------------------------------ error-code census
+
+CODES = os.path.join(HERE, 'rules', 'codes.json')
+REASONS = {0: 'NO_ERROR', 1: 'PROTOCOL_ERROR', 2: 'INTERNAL_ERROR', 3: 'FLOW_CONTROL_ERROR', 4: 'SETTINGS_TIMEOUT', 5: 'STREAM_CLOSED', 6: 'FRAME_SIZE_ERROR',
+           7: 'REFUSED_STREAM', 8: 'CANCEL', 9: 'COMPRESSION_ERROR', 10: 'CONNECT_ERROR', 11: 'ENHANCE_YOUR_CALM', 12: 'INADEQUATE_SECURITY', 13: 'HTTP_1_1_REQUIRED'}
+
+
+def error_codes(F):
+    """(function, constructor) -> sorted list of constant reason codes passed at its error-construction sites"""
+    import collections
+    rows = collections.defaultdict(list)
+    for name, f in F.fns.items():
+        if '::tests::' in name:
+            continue
+        for bi, t in f.calls():
+            fn = t['fn']
+            short_ = fn.rsplit('::', 1)[-1]
+            if not (fn.startswith('proto::error::Error::library_') or fn.endswith('frame::reset::Reset::new') or fn.endswith('frame::go_away::GoAway::new')
+                    or (short_ in ('go_away_now', 'go_away_now_data', 'send_reset', 'go_away') and fn.startswith('proto::'))):
+                continue
+            for a in t['a']:
+                e = strip(f.expr_of_op(a))
+                if e[0] == 'const' and isinstance(e[1], int) and len(e) > 3 and 'Reason' in str(e[3]):
+                    rows[(name.split('::{closure')[0], short_)].append(REASONS.get(e[1], str(e[1])))
+    return {k: sorted(v) for k, v in rows.items()}
+
+
+def check_codes(ctx, rid, prop):
+    r = ctx.rule(rid, 'TABLE', 'error-code census: every reviewed error-construction site still passes its reviewed HTTP/2 error code')
+    F = ctx.facts
+    with open(CODES) as fh:
+        tab = [e for e in json.load(fh) if prop in e['props']]
+    got = error_codes(F)
+    found = 0
+    import collections
+    for e in tab:
+        g = got.get((e['fn'], e['ctor']))
+        if g is None:
+            r.ok('absent|%s|%s' % (e['fn'], e['ctor']), '', 'no such error site in this configuration (restructured?) — not a violation')
+            continue
+        found += 1
+        need = collections.Counter(e['codes'])
+        have = collections.Counter(g)
+        missing = need - have
+        ok = not missing
+        f = F.fn(e['fn'])
+        r.check(ok, 'code|%s|%s' % (e['fn'].replace('proto::streams::', ''), e['ctor']), f.file if f else '',
+                '%s: %s with %s (reviewed: %s)%s. %s' % (e['fn'].split('::')[-1], e['ctor'], dict(have), dict(need), '' if ok else ' — %s no longer sent' % dict(missing), e['why']))
+    r.stat('entries', len(tab))
+    r.floor(found, max(1, int(len(tab) * 0.8)), 'reviewed error sites found in the tree')
+    return r
